@@ -35,6 +35,8 @@ def layouts(s):
     if s:
         yield ("rep", s, 0, 0)      # the same run twice (equal text and attributes)
         yield ("rep3", s, 0, 0)
+        yield ("same2", s, 0, 0)    # the very same Chunk OBJECT in consecutive positions (what f * n and f + f build)
+        yield ("mul3", s, 0, 0)
     else:
         yield ("none", s, 0, 0)
 
@@ -49,6 +51,11 @@ def build(lay):
         return FmtStr(Chunk(s, A1), Chunk(s, A1))
     if kind == "rep3":
         return FmtStr(Chunk(s, A2), Chunk(s, A1), Chunk(s, A1))
+    if kind == "same2":
+        c = Chunk(s, A1)
+        return FmtStr(c, c)
+    if kind == "mul3":
+        return FmtStr(Chunk(s, A3)) * 3
     return FmtStr()
 
 
